@@ -191,6 +191,56 @@ def Layout.Stores (lay : Layout) (v : ToastValue) : Prop :=
 
 instance (lay : Layout) (v : ToastValue) : Decidable (lay.Stores v) := by unfold Layout.Stores; infer_instance
 
+/-! ### what the commit log knows (open finding `C08-unhinted-chunks`)
+
+`Entry.live` is the tuple's OWN HINT BITS (C09's rule; the tool reads no commit log).  PostgreSQL itself decides the
+visibility of a TOAST chunk from the commit log: the inserter committed and no deleter committed
+(HeapTupleSatisfiesToast looks at the hint bits first, then at pg_xact, and sets no hint bit).  A `Fate` is that
+ground truth for one stored tuple; hint bits never contradict it (`hintsSound`) but may not have been set yet. -/
+
+structure Fate where
+  inserted : Bool := true    -- the inserting transaction committed
+  deleted : Bool := false    -- a deleting transaction committed
+deriving Repr, DecidableEq, Inhabited
+
+/-- PostgreSQL's visibility of a chunk once all transactions have ended -/
+def Fate.visible (f : Fate) : Bool := f.inserted && !f.deleted
+
+/-- a hint bit that is set tells the truth: XMIN_COMMITTED (bit 8), XMIN_INVALID alone (bit 9 without 8; both = frozen),
+XMAX_COMMITTED (bit 10 without 11), XMAX_INVALID (bit 11) -/
+def hintsSound (infomask : Nat) (f : Fate) : Prop :=
+  (infomask.testBit 8 = true → f.inserted = true) ∧
+  (infomask.testBit 9 = true ∧ infomask.testBit 8 = false → f.inserted = false) ∧
+  (infomask.testBit 10 = true ∧ infomask.testBit 11 = false → f.deleted = true) ∧
+  (infomask.testBit 11 = true → f.deleted = false)
+
+instance (m : Nat) (f : Fate) : Decidable (hintsSound m f) := by unfold hintsSound; infer_instance
+
+/-- the hint bits decide: the hint-bit rule and the commit log agree on this tuple -/
+def hintsComplete (infomask : Nat) (f : Fate) : Prop := liveBits infomask = f.visible
+
+instance (m : Nat) (f : Fate) : Decidable (hintsComplete m f) := by unfold hintsComplete; infer_instance
+
+/-- a layout together with the fate of every stored tuple -/
+abbrev FatedLayout := List (List (Entry × Fate))
+
+def FatedLayout.layout (l : FatedLayout) : Layout := l.map fun pg => pg.map (·.1)
+
+/-- the rows PostgreSQL sees, in physical order -/
+def FatedLayout.visibleRows (l : FatedLayout) : List Row := (l.flatten.filter (·.2.visible)).map (·.1.row)
+
+/-- the relation stores `v` as PostgreSQL reads it: the VISIBLE rows with chunk_id = v.id are exactly v's chunks -/
+def FatedLayout.StoresPG (l : FatedLayout) (v : ToastValue) : Prop :=
+  (l.visibleRows.filter fun r => r.id == v.id).Perm (chunkRows v)
+
+instance (l : FatedLayout) (v : ToastValue) : Decidable (l.StoresPG v) := by unfold FatedLayout.StoresPG; infer_instance
+
+def FatedLayout.Sound (l : FatedLayout) : Prop := ∀ ef ∈ l.flatten, hintsSound ef.1.infomask ef.2
+def FatedLayout.FullyHinted (l : FatedLayout) : Prop := ∀ ef ∈ l.flatten, hintsComplete ef.1.infomask ef.2
+
+instance (l : FatedLayout) : Decidable l.Sound := by unfold FatedLayout.Sound; infer_instance
+instance (l : FatedLayout) : Decidable l.FullyHinted := by unfold FatedLayout.FullyHinted; infer_instance
+
 /-! ### per-table statistics -/
 
 structure ValueStat where
